@@ -139,6 +139,32 @@ def gen_input(rng, family, dim, periodic, nmax=40):
                 dirs.append((1.0 if i % 2 else -1.0, 0.0, 0.0))
         rng.shuffle(dirs)
         gens = [ctr] + [[ctr[c] + rad * (1.0 + 1e-6 * rank + (0.5 * rank / m if dim == 1 else 0.0)) * d[c] for c in range(3)] for rank, d in enumerate(dirs)]
+    elif family == "offlattice":
+        # exact lattices (simple cubic / body centred) in boxes far from the origin, offsets of mixed sign: every decision is a tie whose
+        # plane equation has large cancelling terms (n.p small, |n|.|p| large)
+        mag = rng.choice([1.0, 1.0, 2.0, 0.5, 1e-3])
+        width = [mag, mag, mag] if rng.chance(0.7) else [mag, 2 * mag, 0.5 * mag]
+        m0 = rng.choice([10.0, 100.0, 1000.0, 500.0])
+        anchor = [width[k] * (m0 if rng.chance(0.6) else rng.choice([10.0, 100.0, 1000.0, 37.0])) * rng.choice([1.0, -1.0]) for k in range(3)]
+        inp["anchor"], inp["width"] = anchor, width
+        k = rng.choice([2, 4]) if dim == 3 else rng.choice([2, 4, 8])
+        bcc = rng.chance(0.6)
+        cnt = [k if a < dim else 1 for a in range(3)]
+        for i in range(cnt[0]):
+            for j in range(cnt[1]):
+                for l in range(cnt[2]):
+                    idx = (i, j, l)
+                    gens.append([anchor[a] + width[a] * ((idx[a] + 0.25) / cnt[a]) for a in range(3)])
+                    if bcc:
+                        gens.append([anchor[a] + width[a] * ((idx[a] + (0.75 if a < dim else 0.25)) / cnt[a]) for a in range(3)])
+    elif family == "faroffset":
+        # box far from the origin: offset 1e4 .. 3e6 widths, mixed signs (sums over absolute coordinates lose everything here;
+        # differences first is what keeps the results "up to rounding" = u * offset / width)
+        mag = rng.choice([1.0, 1.0, 0.5, 3.0])
+        width = [mag * rng.choice([1.0, 2.0, 0.5]) for _ in range(3)]
+        anchor = [width[k] * rng.choice([1e4, 1e5, 3e5, 1e6, 3e6]) * rng.choice([1.0, -1.0]) for k in range(3)]
+        inp["anchor"], inp["width"] = anchor, width
+        gens = [rnd_pt() for _ in range(n)]
     elif family == "aniso":
         # strongly anisotropic and/or offset boxes.  Conditioning is kept within what "up to rounding" can
         # quantify (DESIGN 3.4): aspect <= 1e3; offset <= 1e3 widths; in 1D/2D |coordinates| <= 1e9 because
